@@ -5,9 +5,19 @@
    correspondence family feeds it the stream of an independent rand.NewSource(seed integer) and
    compares with repeated executions of the implementation, in process and in child processes. *)
 From Coq Require Import List ZArith NArith Bool Reals.
-From YS Require Import Base.Sexp Num.F64 Yarn.Ast Yarn.Value Yarn.Eval Yarn.RunnerWire Proofs.RngProofs Proofs.RandomProofs.
+From YS Require Import Base.Sexp Num.F64 Yarn.Ast Yarn.Value Yarn.Eval Yarn.RunnerWire Proofs.RngProofs Proofs.RandomProofs Yarn.Runner Proofs.FlowProofs Proofs.SimProofs.
 Import ListNotations.
 Local Open Scope Z_scope.
+
+(* determinism, the logic half: a run - the elements returned for any sequence of choices - is a
+   function of the script, the runner's dialogue state (continuation, variables as a map, pending
+   command, current node, visit counts), the host's command behaviour and the random stream derived
+   from the seed.  Two runners equal in these give the same run; nothing else (logs, checkpoints,
+   internal layout of maps) can influence it. *)
+Theorem C09_same_state_same_run : forall d f cs m1 m2, rsim m1 m2 ->
+  fst (iter_next d f m1 cs) = fst (iter_next d f m2 cs) /\ rsim (snd (iter_next d f m1 cs)) (snd (iter_next d f m2 cs)).
+Proof. exact iter_next_sim. Qed.
+Print Assumptions C09_same_state_same_run.
 
 Theorem C09_intn_range : forall n e, 0 < n -> 0 <= fst (intn n e) < n.
 Proof. exact intn_range. Qed.
